@@ -40,7 +40,10 @@ def run(run, want, tier):
         for key, msg in evaluate(cls, data, want, framing):
             run.finding(key, msg, case)
         if any(w in want for w in ('C02', 'C03', 'C05')):
-            for m in clsrun.mutations(rng, data, n_mut):
+            muts = clsrun.mutations(rng, data, n_mut)
+            if 'C02' in want or 'C03' in want:
+                muts = muts + structured_mutations(data, tier)
+            for m in muts:
                 mcase = {'kind': 'corpus', 'cls': corpus.class_path(cls), 'data': hx(m), 'want': list(want)}
                 run.evaluations += 1
                 for key, msg in evaluate(cls, m, want, framing):
@@ -49,6 +52,52 @@ def run(run, want, tier):
     run.count('corpus', 'inputs', len(pairs))
     run.notes.append('corpus: {} accepted inputs of {} classes harvested from the repository test-suite at run time, '
                      'evaluated on the implementation only (classes outside the Lean model)'.format(len(pairs), len(classes)))
+
+
+def structured_mutations(data, tier):
+    """deterministic malformed variants aimed at header fields: (a) every one of the first bytes set to small
+    numbers / sign-bit / all-ones (type and code bytes, length bytes); (b) wherever a big-endian field of 1..4
+    bytes at offset 0..2 declares exactly the rest of the input, LENGTH-CONSISTENT truncations of that rest
+    (header rewritten to the shorter length) - the inputs plain truncation cannot produce"""
+    out = []
+    n = len(data)
+    head = min(n, 8 if tier == 'quick' else 24)
+    values = (0, 1, 2, 3, 5, 6, 7, 8, 0x7f, 0x80, 0xfe, 0xff)
+    for i in range(head):
+        for v in values:
+            if data[i] != v:
+                out.append(data[:i] + bytes([v]) + data[i + 1:])
+    for off in (0, 1, 2, 4, 5):
+        for w in (1, 2, 3, 4):
+            if off + w > n:
+                continue
+            declared = int.from_bytes(data[off:off + w], 'big')
+            rest = n - off - w
+            if declared == rest and rest > 0:
+                cuts = range(rest) if rest <= 12 else list(range(6)) + [rest // 2, rest - 2, rest - 1]
+                for k in cuts:
+                    out.append(data[:off] + k.to_bytes(w, 'big') + data[off + w:off + w + k])
+    return out
+
+
+def tz_shifted(obj):
+    """the same object with every aware datetime attribute moved to a non-UTC offset (same instants); None when
+    the object has no such attribute"""
+    import datetime
+    import attr
+    if not attr.has(type(obj)):
+        return None
+    changes = {}
+    for f in attr.fields(type(obj)):
+        v = getattr(obj, f.name, None)
+        if isinstance(v, datetime.datetime) and v.tzinfo is not None and f.init:
+            changes[f.name.lstrip('_')] = v.astimezone(datetime.timezone(datetime.timedelta(hours=5, minutes=30)))
+    if not changes:
+        return None
+    try:
+        return attr.evolve(obj, **changes)
+    except Exception:  # pylint: disable=broad-except
+        return None
 
 
 def evaluate(cls, data, want, framing):
@@ -61,6 +110,16 @@ def evaluate(cls, data, want, framing):
         if obj is not None and hasattr(obj, 'compose'):     # enum factories return plain enum members: parse-only
             for prop, key, msg in clsops.check_object(obj, suffix=b'\x00\x17' if framing else b'')[0]:
                 out.append((key, msg))
+            shifted = tz_shifted(obj)
+            if shifted is not None:
+                # the same instants written with another UTC offset are the same field values
+                try:
+                    if bytes(shifted.compose()) != bytes(obj.compose()):
+                        out.append(('tz-offset:' + cls.__name__,
+                                    '{}: composing the same instants given with a +05:30 offset changes the bytes'.format(cls.__name__)))
+                except Exception as exc:  # pylint: disable=broad-except
+                    out.append(('tz-offset:' + cls.__name__, '{}: compose with offset datetimes raised {}'.format(
+                        cls.__name__, core.err_line(exc))))
     rest = tuple(w for w in want if w != 'C01')
     if rest:
         for prop, key, msg in clsops.check_input(cls, data, want=rest, framing=framing):
